@@ -31,7 +31,9 @@ LEVEL = "model_checking"
 RULE = ("A: explicit-state BFS to closure over (FILTERS,_CACHE) of a fixed graph (filterable point S with "
         "implementations I1,I2, non-filterable point S2, raw point R, parsers P(S), P2(S,S2), P3(S2), combiner C(P)); "
         "events add_filter(t,p,m) for t in {S,I1,I2,P,C,P2} x p x m, add on non-filterable/raw targets, "
-        "get_filters(t,with_matches) for t in {S,I1,I2}; a case is one (state,event) transition executed on the real "
+        "get_filters(t,with_matches) for t in {S,I1,I2}; and, separately, of a nested graph (filterable point S3 implemented "
+        "by FO=first_of([N1,N2]) with N1,N2 outside any SpecSet, parser P3F(S3); adds on S3,FO,P3F, refused adds on N1,N2, "
+        "look-ups on S3,FO,N1); a case is one (state,event) transition executed on the real "
         "functions; non-trivial when a look-up cache entry exists in the source state (the interleaving matters). "
         "B: every content of <= L lines over {'',a,b,ab,xa,-a,a.*,[a],c} x every listed budgeted filter set x each "
         "code path (post-filter on load, cleaner allow-list, apply_filters; both of the first two also executed twice "
@@ -55,9 +57,11 @@ FILTER_STRINGS = ["a", "b", "-a", ".*", "[a]"]
 DEFAULT_BUDGET = 10000      # filters.MAX_MATCH; re-checked against the module when the fixture is built
 BOUNDS = {
     "quick": {"history": "closure for patterns {a,b} x budgets {1,default} and for pattern {a} x budgets {1,2,default}",
+              "history_nested": "closure for patterns {a,b} x budgets {1,2,default} on the first_of graph",
               "content_max_lines": 4, "filter_sets": 46, "repeated_load_max_lines": 3, "host_max_lines": 2,
               "host_filter_sets": 16},
     "thorough": {"history": "closure for patterns {a,b} x budgets {1,2,default}",
+                 "history_nested": "closure for patterns {a,b} x budgets {1,2,default} on the first_of graph",
                  "content_max_lines": 5, "filter_sets": 153, "repeated_load_max_lines": 3, "host_max_lines": 3,
                  "host_filter_sets": 22},
 }
@@ -73,21 +77,45 @@ CL_BUDGET = "content:dropped-before-budget-used"
 CL_DROP = "content:matching-line-dropped"
 CL_EXC = "content:raises"
 CL_NOFILTER = "nofilter:not-collected-on-host"
+CL_COLLECT = "history:collected-after-later-registration"
 
 # ---------------------------------------------------------------------------------------------
 # The fixture graph, declared as plain data (the reference model only ever reads THIS description;
 # _build() checks that the real dr registries agree with it).
 # ---------------------------------------------------------------------------------------------
+# Two disjoint graphs share the description (names are unique):
+#  "main":   S <- I1, I2 ; S2 <- IS2 ; R <- IR ; P(S), C(P), P2(S,S2), P3(S2)
+#  "nested": filterable point S3 implemented by FO = first_of([N1, N2]); N1, N2 are plain simple_file datasources
+#            that are NOT attributes of any SpecSet (the shape of many specs in insights/specs/default.py); P3F(S3).
+#            Content providers look filters up on exactly such nested members (ds=self of the inner simple_file).
 KIND = {"S": "ds", "I1": "ds", "I2": "ds", "S2": "ds", "IS2": "ds", "R": "ds", "IR": "ds",
-        "P": "parser", "C": "combiner", "P2": "parser", "P3": "parser"}
+        "P": "parser", "C": "combiner", "P2": "parser", "P3": "parser",
+        "S3": "ds", "FO": "ds", "N1": "ds", "N2": "ds", "P3F": "parser"}
 DEPS = {"S": ["I1", "I2"], "S2": ["IS2"], "R": ["IR"], "I1": [], "I2": [], "IS2": [], "IR": [],
-        "P": ["S"], "C": ["P"], "P2": ["S", "S2"], "P3": ["S2"]}
-FILTERABLE = {"S": True, "I1": True, "I2": True, "S2": False, "IS2": False, "R": False, "IR": False}
+        "P": ["S"], "C": ["P"], "P2": ["S", "S2"], "P3": ["S2"],
+        "S3": ["FO"], "FO": ["N1", "N2"], "N1": [], "N2": [], "P3F": ["S3"]}
+# FILTERABLE: the datasource accepts registrations (its delegate is flagged filterable).  A nested member never
+# receives its registry point's flag, so add_filter on it raises ("Filters aren't applicable to ...").
+FILTERABLE = {"S": True, "I1": True, "I2": True, "S2": False, "IS2": False, "R": False, "IR": False,
+              "S3": True, "FO": True, "N1": False, "N2": False}
 RAW = {"R": True, "IR": True}
-PART_A = ["S", "I1", "I2", "S2", "IS2", "R", "IR", "P", "C", "P2", "P3"]
-ADD_TARGETS = ["S", "I1", "I2", "P", "C", "P2"]
-BAD_TARGETS = ["S2", "IS2", "R", "IR", "P3"]       # non-filterable point / impl, raw point / impl, parser of S2 only
-GET_TARGETS = ["S", "I1", "I2"]
+# MARKED_OFF: the component itself says `filterable = False` (a non-filterable registry point and whatever implements
+# it): no filter is ever in force for it and none flows through it.  Nested members carry no mark: the filters of
+# everything they feed are in force for them (statement: "registered ... on the spec it implements, or through any
+# parser or combiner depending on it").
+MARKED_OFF = set(["S2", "IS2", "R", "IR"])
+FIXTURES = {
+    "main": {"comps": ["S", "I1", "I2", "S2", "IS2", "R", "IR", "P", "C", "P2", "P3"],
+             "add": ["S", "I1", "I2", "P", "C", "P2"],
+             "bad": ["S2", "IS2", "R", "IR", "P3"],    # non-filterable point / impl, raw point / impl, parser of S2 only
+             "get": ["S", "I1", "I2"]},
+    "nested": {"comps": ["S3", "FO", "N1", "N2", "P3F"],
+               "add": ["S3", "FO", "P3F"],
+               "bad": ["N1", "N2"],                     # unflagged nested members: documented refusal
+               "get": ["S3", "FO", "N1"]},
+}
+PART_A = FIXTURES["main"]["comps"] + FIXTURES["nested"]["comps"]
+ADD_TARGETS = FIXTURES["main"]["add"] + FIXTURES["nested"]["add"]
 
 NF_FACTORIES = ["simple_file", "glob_file", "first_file", "simple_command", "command_with_args",
                 "foreach_execute", "foreach_collect"]
@@ -155,11 +183,12 @@ class RefModel(object):
 
     @staticmethod
     def chain(t):
-        """t and every filterable datasource that t feeds (an implementation feeds its registry point)."""
+        """t and every datasource that t feeds (an implementation feeds its registry point, a nested member feeds
+        the implementation), except through / into components marked non-filterable."""
         out, todo = [], [t]
         while todo:
             c = todo.pop()
-            if c in out or KIND[c] != "ds" or not FILTERABLE.get(c):
+            if c in out or KIND[c] != "ds" or c in MARKED_OFF:
                 continue
             out.append(c)
             todo.extend(_dependents(c))
@@ -306,16 +335,32 @@ def _build():
         def parse_content(self, content):
             self.lines = content
 
+    from insights.core.spec_factory import first_of
+    c07_n1 = simple_file("/absent", context=HostContext)
+    c07_n2 = simple_file("/in_file", context=HostContext)
+
+    class C07NSpecs(SpecSet):
+        s3 = RegistryPoint(filterable=True)
+
+    class C07NHost(C07NSpecs):
+        s3 = first_of([c07_n1, c07_n2])
+
+    @parser(C07NSpecs.s3)
+    class C07P3F(Parser):
+        def parse_content(self, content):
+            self.lines = content
+
     fx.comp = {"S": C07Specs.s, "I1": C07Host.s, "I2": C07Archive.s, "S2": C07Specs.s2, "IS2": C07Host.s2,
                "R": C07Specs.r, "IR": C07Host.r, "P": C07P, "C": c07_c, "P2": C07P2, "P3": C07P3,
-               "CMD": C07Specs.cmd, "ICMD": C07Host.cmd, "PCMD": C07PCmd}
+               "CMD": C07Specs.cmd, "ICMD": C07Host.cmd, "PCMD": C07PCmd,
+               "S3": C07NSpecs.s3, "FO": C07NHost.s3, "N1": c07_n1, "N2": c07_n2, "P3F": C07P3F}
     for f in NF_FACTORIES:
         fx.comp["NF_" + f] = getattr(C07Specs, "nf_" + f)
         fx.comp["INF_" + f] = getattr(C07Host, "nf_" + f)
     fx.all = list(fx.comp.values())
     fx.allset = set(fx.all)
-    fx.part_a = [fx.comp[n] for n in PART_A]
-    fx.idx = dict((c, i) for i, c in enumerate(fx.part_a))
+    fx.parts = dict((g, [fx.comp[n] for n in FIXTURES[g]["comps"]]) for g in FIXTURES)
+    fx.idxs = dict((g, dict((c, i) for i, c in enumerate(fx.parts[g]))) for g in FIXTURES)
     # the declared description must be the real graph
     inv = dict((id(v), k) for k, v in fx.comp.items())
     for n in PART_A:
@@ -329,6 +374,8 @@ def _build():
             dl = dr.get_delegate(c)
             if bool(dl.filterable) != bool(FILTERABLE.get(n)) or bool(dl.raw) != bool(RAW.get(n)):
                 raise RuntimeError("fixture flags differ at %s" % n)
+            if (getattr(c, "filterable", None) is False) != (n in MARKED_OFF):
+                raise RuntimeError("fixture non-filterable mark differs at %s" % n)
     for c in fx.all:
         if c in filters.FILTERS or c in filters._CACHE:
             raise RuntimeError("fresh fixture component already present in the filter tables")
@@ -392,10 +439,10 @@ def _rmroot(fx):
 # expanded: everything behind it is behind a reported violation.  This keeps the search finite and small on a
 # tree with a stale-cache defect (otherwise every stale cache content is a state of its own).
 # ---------------------------------------------------------------------------------------------
-def _canon(fx):
-    """Canonical (FILTERS, _CACHE) restricted to the Part A components: two sorted tuples of
+def _canon(fx, g="main"):
+    """Canonical (FILTERS, _CACHE) restricted to the components of fixture g: two sorted tuples of
     (component index, sorted items).  Entries of other components are never touched."""
-    idx = fx.idx
+    idx = fx.idxs[g]
     f = [(idx[c], tuple(sorted(v.items()))) for c, v in fx.filters.FILTERS.items() if c in idx]
     k = [(idx[c], tuple(sorted(v.items()))) for c, v in fx.filters._CACHE.items() if c in idx]
     f.sort()
@@ -403,8 +450,8 @@ def _canon(fx):
     return (tuple(f), tuple(k))
 
 
-def _restore(fx, canon):
-    idx, comps = fx.idx, fx.part_a
+def _restore(fx, canon, g="main"):
+    idx, comps = fx.idxs[g], fx.parts[g]
     F, C = fx.filters.FILTERS, fx.filters._CACHE
     for c in [c for c in F if c in idx]:
         del F[c]
@@ -496,24 +543,28 @@ def check_history(case):
         _reset_tables(fx)
 
 
-def _history_final_canon(fx, events):
+def _history_final_canon(fx, events, g="main"):
     _reset_tables(fx)
     for ev in events:
         _do(fx, ev)
-    return _canon(fx)
+    return _canon(fx, g)
 
 
 def explore_histories(unit, res):
     fx = _fx()
     patterns, budgets = unit["patterns"], unit["budgets"]
     only2 = unit.get("count_only_with_budget")
+    g = unit.get("fixture", "main")
+    G = FIXTURES[g]
+    GET_TARGETS = G["get"]
     ev_get = [["get", t, wm] for t in GET_TARGETS for wm in (False, True)]
-    ev_add = [["add", t, p, m] for t in ADD_TARGETS for p in patterns for m in budgets]
-    ev_add += [["add", t, patterns[0], None] for t in BAD_TARGETS]
-    get_idx = dict((t, PART_A.index(t)) for t in GET_TARGETS)
+    ev_add = [["add", t, p, m] for t in G["add"] for p in patterns for m in budgets]
+    ev_add += [["add", t, patterns[0], None] for t in G["bad"]]
+    get_idx = dict((t, G["comps"].index(t)) for t in GET_TARGETS)
+    first_get = GET_TARGETS[0]
     get_set = set(get_idx.values())
     _reset_tables(fx)
-    k0 = (_canon(fx), RefModel().key())
+    k0 = (_canon(fx, g), RefModel().key())
     parent = {k0: None}
     frontier = collections.deque([k0])
     depth = {k0: 0}
@@ -543,7 +594,7 @@ def explore_histories(unit, res):
             cached = set(i for i, _ in real[1])
             # the invariant of the state: every look-up answers what the reference says
             for ev in ev_get:
-                _restore(fx, real)
+                _restore(fx, real, g)
                 obs = _do(fx, ev)
                 res.transitions += 1
                 if counted(real, ev):
@@ -556,14 +607,14 @@ def explore_histories(unit, res):
                     cex.append((history(key, ev), v[0]))
                     res.outcomes.add("get:%s:wrong" % ev[1])
                 else:
-                    res.outcomes.add("get:%s:%d:%s" % ("S" if ev[1] == "S" else "I", len(obs), "cached" if get_idx[ev[1]] in cached else "fresh"))
-                    succ.append(((_canon(fx), mkey), ev))
+                    res.outcomes.add("get:%s:%s:%d:%s" % (g, "point" if ev[1] == first_get else "below", len(obs), "cached" if get_idx[ev[1]] in cached else "fresh"))
+                    succ.append(((_canon(fx, g), mkey), ev))
             if bad_state:
                 res.stat("bad_states_not_expanded")
                 continue            # a state violating the invariant is reported, not expanded
             any_cache = bool(cached & get_set)
             for ev in ev_add:
-                _restore(fx, real)
+                _restore(fx, real, g)
                 obs = _do(fx, ev)
                 res.transitions += 1
                 if counted(real, ev):
@@ -577,7 +628,7 @@ def explore_histories(unit, res):
                     res.outcomes.add("add:wrong")
                     continue
                 res.outcomes.add("add:%s:%s" % (ev[1], obs))
-                succ.append(((_canon(fx), model.key()), ev))
+                succ.append(((_canon(fx, g), model.key()), ev))
             for k2, ev in succ:
                 if k2 not in parent:
                     parent[k2] = (key, ev)
@@ -590,7 +641,7 @@ def explore_histories(unit, res):
         # canonical state (validates restore/canon), and both reference formulations must agree on it
         for k in parent:
             h = history(k)
-            if _history_final_canon(fx, h) != k[0]:
+            if _history_final_canon(fx, h, g) != k[0]:
                 raise RuntimeError("restored state differs from re-executed history %r" % (h,))
             m = RefModel(k[1])
             for t in GET_TARGETS:
@@ -599,7 +650,7 @@ def explore_histories(unit, res):
             res.traces += 1
         # counterexamples are re-executed along their shortest history before they are reported
         for h, clause in cex:
-            case = {"part": "history", "events": h}
+            case = {"part": "history", "events": h} if g == "main" else {"part": "history", "fixture": g, "events": h}
             vs = check_history(case)
             res.traces += 1
             if not vs or vs[0][0] != clause:
@@ -608,7 +659,7 @@ def explore_histories(unit, res):
             res.violation(c, case, e, o, f)
         res.stat("history_counterexamples", len(cex))
         dmax = max(depth.values())
-        res.samples.append({"part": "history", "events": history(next(k for k in parent if depth[k] == dmax))})
+        res.samples.append({"part": "history", "fixture": g, "events": history(next(k for k in parent if depth[k] == dmax))})
     finally:
         _reset_tables(fx)
 
@@ -1051,13 +1102,16 @@ def judge_selfcheck(res):
 # driver protocol
 # ---------------------------------------------------------------------------------------------
 def units(tier, seed):
-    us = [{"part": "judge-selfcheck"}, {"part": "nofilter"}]
+    us = [{"part": "judge-selfcheck"}, {"part": "nofilter"}, {"part": "collect-history"}]
     if tier == "quick":
         us.append({"part": "history", "name": "ab_1_default", "patterns": ["a", "b"], "budgets": [1, None]})
         us.append({"part": "history", "name": "a_1_2_default", "patterns": ["a"], "budgets": [1, 2, None],
                    "count_only_with_budget": 2})
     else:
         us.append({"part": "history", "name": "ab_1_2_default", "patterns": ["a", "b"], "budgets": [1, 2, None]})
+    # nested specs (first_of members): a second, small graph explored to closure on the full alphabet in both tiers
+    us.append({"part": "history", "fixture": "nested", "name": "nested_ab_1_2_default", "patterns": ["a", "b"],
+               "budgets": [1, 2, None]})
     k = 2 if tier == "quick" else 4
     for si in range(len(filter_sets(tier))):
         for j in range(k):
@@ -1073,6 +1127,50 @@ def unit_weight(u):
     if u["part"] == "history":
         return 100 if len(u["patterns"]) * len(u["budgets"]) > 4 else 50
     return {"host": 3, "content": 2}.get(u["part"], 1)
+
+
+# ---------------------------------------------------------------------------------------------
+# refused once, registered later: the same look-up/registration interleaving seen through a host collection
+# ---------------------------------------------------------------------------------------------
+COLLECT_CASES = [("S", t) for t in ("S", "I1", "P", "C", "P2")] + [("S3", t) for t in ("S3", "FO", "P3F")]
+
+
+def check_collect_history(case):
+    """case = {"part":"collect-history","point":"S"|"S3","register_on":name,"lines":[..]}: a host collection of the
+    point with no filter (refused; builds a provider, i.e. looks the filters up on the datasource that reads the
+    file - for S3 the nested member), then add_filter(register_on, "a"), then the same collection again: the
+    spec must now be collected and its content must satisfy the content clauses for the filter set {"a"}."""
+    from insights.core.exceptions import ContentException, CalledProcessError
+    fx = _fx()
+    _mkroot(fx)
+    try:
+        _reset_tables(fx)
+        lines = list(case["lines"])
+        _write_input(fx, "in_file", lines)
+        point = fx.comp[case["point"]]
+        feats = {"point": case["point"], "register_on": case["register_on"]}
+        b = _host_broker(fx)
+        fx.dr.run(fx.dr.get_dependency_graph(point), b)
+        if point in b:
+            return [(CL_NOFILTER, {"point_in_broker": False}, {"point_in_broker": True}, feats)]
+        fx.filters.add_filter(fx.comp[case["register_on"]], "a")
+        b = _host_broker(fx)
+        fx.dr.run(fx.dr.get_dependency_graph(point), b)
+        exp = {"point_in_broker": True, "content": "the lines containing 'a'"}
+        if point not in b:
+            why = sorted(set(repr(e)[:90] for v in b.exceptions.values() for e in v))
+            return [(CL_COLLECT, exp, {"point_in_broker": False, "exceptions": [w.replace(fx.root, "<root>") for w in why]}, feats)]
+        try:
+            content = list(b[point].content)
+        except (ContentException, CalledProcessError) as ex:
+            content = []
+        v = judge(lines, content, {"a": None}, True)
+        if v:
+            return [(CL_COLLECT, exp, {"point_in_broker": True, "content": content, "clause": v[0]}, feats)]
+        return []
+    finally:
+        _reset_tables(fx)
+        _rmroot(fx)
 
 
 def run_unit(unit, tier):
@@ -1096,6 +1194,15 @@ def run_unit(unit, tier):
                          sample=case if f == "glob_file" and other else None)
                 for c, e, o, ft in vs:
                     res.violation(c, case, e, o, ft)
+    elif part == "collect-history":
+        for point, tgt in COLLECT_CASES:
+            for lines in (["a", "c", "xa"], ["c", "-a", ""]):
+                case = {"part": "collect-history", "point": point, "register_on": tgt, "lines": lines}
+                vs = check_collect_history(case)
+                res.case(nontrivial=True, outcome="collect:%s:%s" % (point, bool(vs)),
+                         sample=case if tgt == "P3F" and lines[0] == "a" else None)
+                for c, e, o, ft in vs:
+                    res.violation(c, case, e, o, ft)
     else:
         raise ValueError(part)
     return res
@@ -1111,6 +1218,8 @@ def replay(case):
         case = dict(case)
         vs = check_nofilter(case)
         case.pop("_control_collected", None)
+    elif part == "collect-history":
+        vs = check_collect_history(case)
     else:
         raise ValueError(part)
     return [{"clause": c, "case": case, "expected": e, "observed": o, "features": f} for c, e, o, f in vs]
@@ -1120,9 +1229,11 @@ TECHNIQUE = ("explicit-state BFS to closure over the real add_filter/get_filters
              "model; bounded exhaustive enumeration of contents x budgeted filter sets through the four filtering code "
              "paths (real grep -F on the host path) against a declarative oracle")
 LEVEL_TEXT = ("Histories: the reachable (FILTERS,_CACHE) state space of a fixed graph (registry point, two implementations, "
-              "parsers, a combiner, non-filterable and raw targets) is explored to closure with the real functions as the "
-              "transition relation; every look-up in every reachable state is compared with a cache-free reference (union "
-              "semantics), and every state's shortest history is re-executed from empty tables. Contents: every content of "
+              "parsers, a combiner, non-filterable and raw targets) and, separately, of a nested graph (registry point "
+              "implemented by first_of over two datasources outside any SpecSet, a parser) is explored to closure with the "
+              "real functions as the transition relation; every look-up in every reachable state is compared with a cache-free reference (union "
+              "semantics), and every state's shortest history is re-executed from empty tables; the same refused-then-registered "
+              "interleaving is also observed through real host collections (8 point x registration-target pairs). Contents: every content of "
               "<= 4 (quick) / <= 5 (thorough) lines over a 9-symbol line alphabet (regex metacharacters, leading dash, "
               "overlapping and empty lines) x 46 / 153 budgeted filter sets through post-filter on load, the cleaner's "
               "allow-list and apply_filters, and <= 2 / <= 3 lines x 16 / 22 sets through real host collection "
@@ -1130,5 +1241,5 @@ LEVEL_TEXT = ("Histories: the reachable (FILTERS,_CACHE) state space of a fixed 
 LEVEL_NOTE = ("Trusted: the fixture's declared graph (checked against the dr registries), the 40-line reference model "
               "(cross-checked against a second formulation transcribed from the statement on every discovered state), the "
               "declarative content judge (validated against the documented algorithm and five known-wrong outputs on every "
-              "run). Budgets across components: weaker reading (any contributing component's budget). One graph shape only; "
-              "container factories and glob/first-file content are not pushed through the content paths.")
+              "run). Budgets across components: weaker reading (any contributing component's budget). Two graph shapes only (plain implementations; "
+              "first_of nesting one level deep); container factories and glob/first-file content are not pushed through the content paths.")
